@@ -191,7 +191,7 @@ def monomorphise(s):
 # ------------------------------------------------------------------ contracts (.vc)
 class Contract:
     """sections of a .vc file.  `== pre`, `== implspec`, `== post`, `== fn NAME`, `== loop NAME K`,
-    `== loopend NAME K`, `== begin NAME`, `== end NAME`.  In fn/loop sections each clause starts with
+    `== loopend NAME K`, `== afterloop NAME K`, `== begin NAME`, `== end NAME`.  In fn/loop sections each clause starts with
     requires / ensures[LABEL|TAGS] / invariant[LABEL|TAGS] / decreases and ends at the next clause."""
     def __init__(self, path, rename=None):
         self.sec = {}
@@ -450,6 +450,9 @@ def inject_fn(em, module, vc, header, body, is_trait_impl, struct_name):
         le = vget('loopend %s %d' % (name, k))
         if le:
             inserts.append((c, ('LOOPEND', k, le.replace('@I@', lvn))))
+        al = vget('afterloop %s %d' % (name, k))
+        if al:
+            inserts.append((c + 1, ('TEXT', -1, '\n' + al)))       # directly behind the closing brace of the loop
     tail = vc.tail if (name == 'update' and is_trait_impl) else []
     for k, m in enumerate(re.finditer(r'\breturn\b', body)):
         rt = vget('return %s %d' % (name, k))
